@@ -119,6 +119,7 @@ for pid in P:
         fams = sorted(set(re.sub(r"_(?:[SEH][A-Za-z0-9]+)$", "_<family type>", n) for n in P[pid]["native"]))
         P[pid]["level_note"] = (P[pid].get("level_note", "") + " BOUNDED stand-ins (native small-scope enumeration on the real code, labelled bounded, never counted as proved): " + ", ".join(fams) + ".").strip()
 P["C06"]["verus"].append("v_diff")       # diff_schema runs on untrusted schema bytes during load: no panic / no out-of-bounds
+P["C09"]["verus"].append("v_layout")     # "values equal whether they travel by reference or serialized" rests on the by-reference decision
 P["C10"]["verus"].append("v_layout")     # the by-reference decision is part of version tolerance (differently versioned peers)
 json.dump(P, open(os.path.join(ROOT, "checks.json"), "w"), indent=1)
 for k, v in P.items():
